@@ -217,6 +217,25 @@ func verifOSMkdirAll(p string, perm os.FileMode) error {
 	verifOSPost("MkdirAll", p)
 	return err
 }
+
+// Write: a large write to a file of the database (a journal block, a table block) is a crash point before it and in
+// its middle - the first half is on disk, the second is not: a torn write. Small writes are left alone (they would
+// add two crash points to every row write of every program).
+func (fw *fileWrap) Write(p []byte) (int, error) {
+	if len(p) < 8192 || VerifHook == nil {
+		return fw.File.Write(p)
+	}
+	name := fw.File.Name()
+	verifOSPre("Write", name)
+	h := len(p) / 2
+	n, err := fw.File.Write(p[:h])
+	if err != nil {
+		return n, err
+	}
+	verifOSPre("Write+torn", name)
+	m, err := fw.File.Write(p[h:])
+	return n + m, err
+}
 `
 		// (a file ADDED to a package of the module cache is not picked up by the overlay: the definitions are
 		// appended to the first replaced file, which imports "os" already)
